@@ -302,8 +302,8 @@ func checkC06(sc *Scenario, res *RunResult, t *Truth) []Violation {
 					if m.Pgid != L.Pgid {
 						continue // left the group on its own (setsid): out of reach by design
 					}
-					if m.ExitSeq >= 0 {
-						continue
+					if m.ExitSeq >= 0 && !(sc.ViaCmd && m == L && t.RunRet > shut.CallSeq && m.ExecSeq < t.RunRet && m.ExitSeq > t.RunRet) {
+						continue // (when the binary has returned nobody is left to stop anything)
 					}
 					// owed: it does not ignore the stop signal, or SIGKILL to the group was due
 					killDue := p.StopTimeout != nil && (parentIgnores || p.StopCmd != "")
@@ -478,6 +478,31 @@ func genC06(r *R, sc *Scenario, tier string) {
 		sc.RunForMs = 8000
 		sc.QuietMs = 15000
 		sc.Arm = "sweep"
+		return
+	}
+	if r.P(100) {
+		// "up --keep-project": everything that starts by itself has ended and Run() has
+		// returned; a process is started by hand, then the binary is told to shut down. It
+		// leaves only when the shutdown - time-out and SIGKILL included - has run its course.
+		spec.Procs = nil
+		sc.Scripts = map[string]*TokenScript{}
+		spec.Procs = append(spec.Procs, &ProcSpec{Name: "f0", Token: "f0"}, &ProcSpec{Name: "st", Token: "st", Disabled: true, StopTimeout: iptr(Pick(r, 1, 2, 3))})
+		sc.Scripts["f0"] = &TokenScript{Launches: []simos.Script{{LifeMs: Pick(r, 100, 500), Exit: 0}}}
+		sc.Scripts["st"] = &TokenScript{Launches: []simos.Script{{LifeMs: -1, Ignore: []int{15}}}}
+		if r.P(400) {
+			st := spec.Procs[1]
+			st.StopCmd, st.StopTimeout = "st", iptr(Pick(r, 2, 3))
+			sc.Scripts["st"] = &TokenScript{Launches: []simos.Script{{LifeMs: -1}}}
+			sc.Scripts["simstop:st"] = &TokenScript{Launches: []simos.Script{{LifeMs: Pick(r, 900, 1500), Exit: 0, KillToken: "st", KillSig: 15, KillAtMs: 800}}}
+		}
+		sc.ViaCmd, sc.Keep = true, true
+		sc.Clients = []Client{{Name: "c", Ops: []Op{{AtMs: 2000, Op: "start", Arg: "st"}}}, {Name: "os", Ops: []Op{{AtMs: Pick(r, 3000, 4000), Op: "signal", N: Pick(r, 15, 2, 1)}}}}
+		sc.Strategy = genStrategy(r)
+		sc.Strategy.StallPermille = 0
+		sc.OrderedShutdown = r.P(300)
+		sc.RunForMs = 64000
+		sc.QuietMs = 15000
+		sc.Arm = "keepproject"
 		return
 	}
 	sigAt := 0
